@@ -353,6 +353,44 @@ func VerifH08d() {
 	}
 	_, err = p.Scan(999999)
 	vAssert("scan-unknown-oid-is-error", err == ErrUnknownOid)
+
+	// a binary int4 / int2 / int8 parameter decodes, through pgx's own codec, to
+	// the number the client sent; any other length is an error; NULL stays nil
+	width := []int{2, 4, 8}[vChoose(3)]
+	ioid := map[int]uint32{2: uint32(oid.T_int2), 4: uint32(oid.T_int4), 8: uint32(oid.T_int8)}[width]
+	raw := nondetBytes(vChoose(10))
+	var rv []byte
+	if !isNull {
+		rv = raw
+	}
+	ip := NewParameter(srv.types, BinaryFormat, rv)
+	num, ierr := ip.Scan(ioid)
+	switch {
+	case isNull:
+		vAssert("scan-binary-integer-null-is-nil", ierr == nil && num == nil)
+	case len(raw) != width:
+		vAssert("scan-binary-integer-of-wrong-length-is-error", ierr != nil)
+		vReach("scan-integer-wrong-length")
+	default:
+		var want int64
+		for _, b := range raw {
+			want = want<<8 | int64(b)
+		}
+		ok := false
+		switch width {
+		case 2:
+			x, is := num.(int16)
+			ok = is && x == int16(want)
+		case 4:
+			x, is := num.(int32)
+			ok = is && x == int32(want)
+		default:
+			x, is := num.(int64)
+			ok = is && x == want
+		}
+		vAssert("scan-binary-integer-value", ierr == nil && ok)
+		vReach("scan-integer")
+	}
 }
 
 // ---------------------------------------------------------------------------
